@@ -155,6 +155,27 @@ class BuildDirs:
 
                 prev_parent = parent
                 parent = os.path.dirname(parent)
+
+            # Another thread might have reserved a directory we created before
+            # we got here, having taken it for a directory that exists
+            # independently of this build (or it reserved a directory that was
+            # virtually removed in the meantime). Whoever reserved it first,
+            # the directory was created by this build.
+            if created_dirs_set or self._error_created_dirs:
+                prev_parent = filename
+                parent = os.path.dirname(prev_parent)
+                while parent != prev_parent:
+                    norm_cased_parent = os.path.normcase(parent)
+                    if ((parent in created_dirs_set or
+                            norm_cased_parent in self._error_created_dirs) and
+                            norm_cased_parent not in self._created_dirs_map and
+                            norm_cased_parent in self._build_dir_counts):
+                        self._created_dirs_map[norm_cased_parent] = parent
+                        self._error_created_dirs.discard(norm_cased_parent)
+                        self._removed_files.discard(norm_cased_parent)
+                        locked_created_dirs.append(parent)
+                    prev_parent = parent
+                    parent = os.path.dirname(parent)
         return locked_created_dirs
 
     def error_building_file(self, filename):
